@@ -29,7 +29,7 @@ struct Guard(u32, Arc<AtomicI32>);
 impl Drop for Guard { fn drop(&mut self) { self.1.fetch_sub(1, SeqCst); ev(format!("call 0 finished {}", self.0)); } }
 
 /// outcome codes carried by the events: value = index * 10 + code
-fn code(v: u32) -> u32 { v % 10 }   // 0 ok, 1 err, 2 slow, 3 slow-then-err
+fn code(v: u32) -> u32 { v % 10 }   // 0 ok, 1 err, 2 slow, 3 slow-then-err, 4 err whose own error type is tokio's `Elapsed`
 
 #[derive(Default)]
 struct Obs { ok: u32, failed: u32, timed_out: u32, on_err: u32, max_inflight: i32, callbacks: u32, status_ended: bool, finish_ge_start: bool }
@@ -44,6 +44,8 @@ async fn item_future(v: u32, inflight: Arc<AtomicI32>, maxin: Arc<AtomicI32>, lo
         0 => Ok(v),
         1 => Err(format!("item {v} failed").into()),
         2 => { tokio::time::sleep(Duration::from_millis(3 * TIMEOUT_MS)).await; Ok(v) }
+        // an item that fails FAST with an error of its own that happens to be a timeout of something it used
+        4 => Err(Box::new(tokio::time::timeout(Duration::from_millis(1), std::future::pending::<()>()).await.unwrap_err())),
         _ => { tokio::time::sleep(Duration::from_millis(3 * TIMEOUT_MS)).await; Err(format!("item {v} failed late").into()) }
     }
 }
@@ -242,7 +244,7 @@ async fn run_transition(seed: u64, sequential: bool, limit: u32, n_old: u32, n_n
 /// C06 for a Multi: 2-3 listeners (sequential futures executors) of different speeds; every one of them must have processed
 /// every accepted event when `close()` returns.  Returns one event log per listener (in the format of the `close` sub).
 macro_rules! mclose_kind { ($fname:ident, $ty:ty) => {
-    async fn $fname(n_listeners: usize, n_events: u32, delays: Vec<u64>, limit: u32) -> Vec<Vec<String>> {
+    async fn $fname(n_listeners: usize, n_events: u32, delays: Vec<u64>, limit: u32, remove: Option<usize>) -> Vec<Vec<String>> {
         let multi = Arc::new(<$ty>::new("vh-mclose"));
         let log = Arc::new(Mutex::new(Vec::<(usize, String)>::new()));   // (listener or usize::MAX for everybody, line)
         for l in 0..n_listeners {
@@ -253,10 +255,17 @@ macro_rules! mclose_kind { ($fname:ident, $ty:ty) => {
                 move |_| { let lg = lg2.clone(); async move { lg.lock().unwrap().push((l, "call 0 callback".into())); } }).await.expect("spawn");
         }
         for i in 0..n_events { assert!(multi.send(10 + i).is_ok()); log.lock().unwrap().push((usize::MAX, format!("call 0 accepted {}", 10 + i))); tokio::time::sleep(Duration::from_millis(1)).await; }
+        // sometimes one listener is being removed individually (another task is inside `flush_and_cancel_executor`, waiting for
+        // that listener's stream to end) when the whole Multi is closed: close() must still wait for that listener too
+        let remover = remove.map(|r| { let (m2, lg) = (multi.clone(), log.clone()); tokio::spawn(async move {
+            lg.lock().unwrap().push((r, "call 0 cancelall".into()));
+            m2.flush_and_cancel_executor(format!("listener{r}"), Duration::ZERO).await }) });
+        if remover.is_some() { tokio::time::sleep(Duration::from_millis(2)).await; }
         log.lock().unwrap().push((usize::MAX, "call 0 closecalled".into()));
         let ok = multi.close(Duration::ZERO).await;
         log.lock().unwrap().push((usize::MAX, "call 0 closereturned".into()));
         assert!(ok, "close() answered false with an unbounded timeout");
+        if let Some(r) = remover { let _ = r.await; }
         tokio::time::sleep(Duration::from_millis(500)).await;
         let lg = log.lock().unwrap().clone();
         (0..n_listeners).map(|l| lg.iter().filter(|(w, _)| *w == l || *w == usize::MAX).map(|(_, s)| s.clone()).collect()).collect()
@@ -369,11 +378,12 @@ fn main() {
             let nl = rng.range(2, 3) as usize;
             let ne = rng.range(1, 12) as u32;
             let delays: Vec<u64> = (0..nl).map(|_| [0, 0, 3, 10][rng.below(4) as usize]).collect();
+            let remove = if rng.chance(1, 2) { (0..nl).rev().find(|l| delays[*l] > 0) } else { None };
             let rt = runtime(multi);
             let logs = rt.block_on(async { match kind {
-                "arc_atomic" => mclose_arc_atomic(nl, ne, delays.clone(), 1).await, "arc_fullsync" => mclose_arc_fullsync(nl, ne, delays.clone(), 1).await,
-                "arc_crossbeam" => mclose_arc_crossbeam(nl, ne, delays.clone(), 1).await, "ogre_atomic" => mclose_ogre_atomic(nl, ne, delays.clone(), 1).await,
-                _ => mclose_ogre_fullsync(nl, ne, delays.clone(), 1).await } });
+                "arc_atomic" => mclose_arc_atomic(nl, ne, delays.clone(), 1, remove).await, "arc_fullsync" => mclose_arc_fullsync(nl, ne, delays.clone(), 1, remove).await,
+                "arc_crossbeam" => mclose_arc_crossbeam(nl, ne, delays.clone(), 1, remove).await, "ogre_atomic" => mclose_ogre_atomic(nl, ne, delays.clone(), 1, remove).await,
+                _ => mclose_ogre_fullsync(nl, ne, delays.clone(), 1, remove).await } });
             drop(rt);
             for (l, trace) in logs.iter().enumerate() {
                 let mut viol: Vec<(String, String)> = vec![];
@@ -381,7 +391,7 @@ fn main() {
                 for v in (0..ne).map(|k| 10 + k) {
                     match trace.iter().position(|x| *x == format!("call 0 finished {v}")) {
                         Some(p) if p < closed_at => {}
-                        _ => viol.push(("close_before_processed".into(), format!("Multi {kind}, {nl} listeners with per-item delays {delays:?} ms, sequential executors: close() returned before listener #{l} had processed accepted event {v} (it processed {} of {ne})", trace[..closed_at].iter().filter(|x| x.starts_with("call 0 finished")).count()))),
+                        _ => viol.push(("close_before_processed".into(), format!("Multi {kind}, {nl} listeners with per-item delays {delays:?} ms, sequential executors{}: close() returned before listener #{l} had processed accepted event {v} (it processed {} of {ne})", remove.map(|r| format!(", listener #{r} being removed by flush_and_cancel_executor meanwhile")).unwrap_or_default(), trace[..closed_at].iter().filter(|x| x.starts_with("call 0 finished")).count()))),
                     }
                 }
                 let cbs = trace.iter().filter(|x| *x == "call 0 callback").count();
@@ -497,7 +507,7 @@ fn main() {
         let instr = rng.below(3);
         let n = rng.range(0, if sub == "close" { 6 } else { 12 }) as usize;
         let items: Vec<u32> = (0..n).map(|k| {
-            let c = match variant { "futfallible" => rng.below(4), "fut" => [0, 2][rng.below(2) as usize], "fallible" => rng.below(2), _ => 0 } as u32;
+            let c = match variant { "futfallible" => rng.below(5), "fut" => [0, 2][rng.below(2) as usize], "fallible" => rng.below(2), _ => 0 } as u32;
             (k as u32 + 1) * 10 + c
         }).collect();
         LOG.lock().unwrap().clear();
@@ -521,7 +531,7 @@ fn main() {
                 (_, _) => run_uni::<NONE, 4>(variant, timeout, limit, &items, usize::MAX, log_events).await }
         });
         drop(rt);
-        let letters: String = items.iter().map(|v| ['o', 'e', 's', 'x'][code(*v) as usize]).collect();
+        let letters: String = items.iter().map(|v| ['o', 'e', 's', 'x', 'z'][code(*v) as usize]).collect();
         let cfgkey = format!("{variant}/to{}/l{limit}/i{instr}/ms{ms}", timeout as u8);
         let mut viol: Vec<(String, String)> = vec![];
         let mut trace: Vec<String> = vec![];
@@ -531,6 +541,12 @@ fn main() {
             if metrics { trace.push(format!("obs counts {} {} {} {}", o.ok, o.failed, o.timed_out, o.on_err)); } else { trace.push(format!("obs onerr {}", o.on_err)); }
             // implementation-side oracle (independent of the model): one outcome per item
             if metrics && (o.ok + o.failed + o.timed_out) as usize != items.len() { viol.push(("items_not_accounted".into(), format!("{variant} timeout={timeout} limit={limit}: {} items ({letters}) but ok {} + failed {} + timed out {}", items.len(), o.ok, o.failed, o.timed_out))); }
+            // what each item's own outcome says (independently of the model): ok / failed / timed out
+            let (mut x_ok, mut x_failed, mut x_to) = (0u32, 0u32, 0u32);
+            for v in &items { match (code(*v), timeout) { (0, _) => x_ok += 1, (1, _) | (4, _) => x_failed += 1, (2, false) => x_ok += 1, (3, false) => x_failed += 1, _ => x_to += 1 } }
+            if matches!(variant, "futfallible" | "fallible") && o.on_err != x_failed { viol.push(("error_callback_count".into(), format!("{variant} timeout={timeout}: {x_failed} items failed ({letters}) but the error callback ran {} times", o.on_err))); }
+            if metrics && matches!(variant, "futfallible" | "fut" | "fallible") && (o.ok, o.failed, o.timed_out) != (x_ok, if variant == "fut" { 0 } else { x_failed }, x_to) && variant != "fut" {
+                viol.push(("item_misclassified".into(), format!("{variant} timeout={timeout} limit={limit}: items {letters} should count ok {x_ok} / failed {x_failed} / timed out {x_to}, the executor counted {} / {} / {}", o.ok, o.failed, o.timed_out))); }
             let has_on_err = matches!(variant, "futfallible" | "fallible");
             if has_on_err && metrics && o.on_err != o.failed { viol.push(("error_callback_count".into(), format!("{variant}: error callback ran {} times for {} failed items ({letters})", o.on_err, o.failed))); }
             if matches!(variant, "futfallible" | "fut") && o.max_inflight > limit as i32 { viol.push(("limit_exceeded".into(), format!("{variant} (Uni with {ms} consumer streams): one consumer had {} item futures in progress at once with concurrency_limit={limit}", o.max_inflight))); }
@@ -558,7 +574,7 @@ fn main() {
             if !o.finish_ge_start { viol.push(("finish_before_start".into(), "finish time before start time".into())); }
         }
         let cfg = if sub == "account" { "cfg model=exec".to_string() } else { format!("cfg model=exec futures={} limit={limit}", matches!(variant, "futfallible" | "fut") as u8) };
-        let nontrivial = if sub == "account" { letters.contains('e') || letters.contains('s') || letters.contains('x') } else { items.len() > 1 };
+        let nontrivial = if sub == "account" { letters.contains('e') || letters.contains('s') || letters.contains('x') || letters.contains('z') } else { items.len() > 1 };
         rep.add_run(&trace, nontrivial, &cfgkey, "Completed");
         out.write_run(&format!("{cfg} seed={seed} run={i}"), &trace);
         for (k, d) in viol {
